@@ -70,7 +70,7 @@ func c20Truncate(b *core.B, s string, size int, trail string, viaTemplate bool) 
 		b.Violate("truncate|not-a-prefix", fmt.Sprintf("s=%q size=%d trail=%q -> %q: %q is not a prefix of s", s, size, trail, out, p))
 		return
 	}
-	if utf8.ValidString(s) && !strings.HasPrefix(s, p) {
+	if !strings.HasPrefix(s, p) {
 		b.Violate("truncate|splits-a-character", fmt.Sprintf("s=%q size=%d trail=%q -> %q", s, size, trail, out))
 		return
 	}
@@ -364,7 +364,7 @@ func init() {
 	core.Register(&core.Prop{
 		ID:         "C20",
 		Level:      "exploration",
-		Rule:       "truncate: every string of length <= 5 over {a, é, U+0301, 0xff} x size in [-2, 8] x 6 trails (exhaustive), random strings of length <= 64 over ASCII / multi-byte / combining / emoji / invalid UTF-8 x size in [-2, 70] x trails of length <= 8, called directly and through a template; predicates: at most size characters => unchanged, otherwise rune-prefix of s (byte prefix when s is valid UTF-8) + trail and at most max(size, len(trail)) characters. htmlEscape / jsEscape / raw: every string of length <= 3 over a 16-symbol hostile alphabet (exhaustive) plus random byte strings: no raw < > ' \" and every & opens an entity; no < > & = and no quote or line break (LF, CR, U+2028, U+2029) outside a backslash escape; raw(s) byte-identical through a template. toJSON: values from a recursive generator (nil, bool, finite floats incl. extremes, strings with < > & U+2028 quotes control characters, arrays, string-keyed maps, depth <= 4), directly and through a template: json.Valid, decodes back to the value, no raw < > &. Non-trivial for truncate = the string is longer than size.",
+		Rule:       "truncate: every string of length <= 5 over {a, é, U+0301, 0xff} x size in [-2, 8] x 6 trails (exhaustive), random strings of length <= 64 over ASCII / multi-byte / combining / emoji / invalid UTF-8 x size in [-2, 70] x trails of length <= 8, called directly and through a template; predicates: at most size characters => unchanged, otherwise a byte prefix of s ending on a character boundary + trail and at most max(size, len(trail)) characters. htmlEscape / jsEscape / raw: every string of length <= 3 over a 16-symbol hostile alphabet (exhaustive) plus random byte strings: no raw < > ' \" and every & opens an entity; no < > & = and no quote or line break (LF, CR, U+2028, U+2029) outside a backslash escape; raw(s) byte-identical through a template. toJSON: values from a recursive generator (nil, bool, finite floats incl. extremes, strings with < > & U+2028 quotes control characters, arrays, string-keyed maps, depth <= 4), directly and through a template: json.Valid, decodes back to the value, no raw < > &. Non-trivial for truncate = the string is longer than size.",
 		Assume:     []string{"a character is a Unicode code point as counted by []rune conversion (invalid bytes count one each)", "entity-agnostic reading of 'contains none of < > & ' \"': & may only open an entity"},
 		Batches:    batchesQT(16, 64),
 		Run:        c20Run,
